@@ -141,6 +141,9 @@ def gen_trees(tier, rng, plens, quick_n, thorough_n, need_nonempty=True):
         out.append((sh, tuple(rng.choice(A) for _ in range(k)), P))
     if need_nonempty:
         out = [t for t in out if sum(t[1]) > 0]
+    # payloads without a single byte (one empty file, only empty files): no piece, no root, no layer - generated on purpose
+    for P in plens[:2]:
+        out += [("S1", (0,), P), ("D1", (0,), P), ("D2", (0, 0), P), ("D2n", (0, 0), P), ("D3", (0, 0, 0), P)]
     seen, uniq = set(), []
     for t in out:
         if t not in seen:
@@ -187,8 +190,8 @@ def modes_for(n, sizes):
     identical files (the properties quantify over all contents, not only over unique random bytes)."""
     if n % 6:
         return None
-    pat = ("zeros", "repeat", "sparse", "same")[(n // 6) % 4]
-    return [pat if (k + n // 24) % 2 == 0 or pat == "same" else "rand" for k in range(len(sizes))]
+    pat = ("zeros", "repeat", "sparse", "same", "ztail", "const", "zhead", "period", "zmid")[(n // 6) % 9]
+    return [pat if (k + n // 24) % 2 == 0 or pat in ("same", "const", "period") else "rand" for k in range(len(sizes))]
 
 
 class CreateProp(Prop):
